@@ -20,6 +20,7 @@ import (
 	"net/http"
 	"net/http/httptest"
 	"os"
+	"strings"
 	"sync"
 	"time"
 
@@ -69,9 +70,9 @@ func (b *baseTok) keyFor(n string, id int) *ecdsa.PrivateKey {
 	return b.keys[k]
 }
 
-func (b *baseTok) Close() error                   { return nil }
-func (b *baseTok) Ping(context.Context) error     { b.mu.Lock(); defer b.mu.Unlock(); return b.pingErr }
-func (b *baseTok) Config() *config.TokenConfig    { return b.tconf }
+func (b *baseTok) Close() error                     { return nil }
+func (b *baseTok) Ping(context.Context) error       { b.mu.Lock(); defer b.mu.Unlock(); return b.pingErr }
+func (b *baseTok) Config() *config.TokenConfig      { return b.tconf }
 func (b *baseTok) ListKeys(token.ListOptions) error { return nil }
 func (b *baseTok) Import(string, crypto.PrivateKey) (token.Key, error) {
 	return nil, token.NotImplementedError{Op: "import-key", Type: "verifbase"}
@@ -120,9 +121,9 @@ func (k *baseKey) SignContext(ctx context.Context, d []byte, o crypto.SignerOpts
 	}
 	return k.priv.Sign(rand.Reader, d, o)
 }
-func (k *baseKey) Config() *config.KeyConfig                { return &config.KeyConfig{} }
-func (k *baseKey) Certificate() []byte                      { return nil }
-func (k *baseKey) GetID() []byte                            { return []byte{byte(k.id)} }
+func (k *baseKey) Config() *config.KeyConfig                 { return &config.KeyConfig{} }
+func (k *baseKey) Certificate() []byte                       { return nil }
+func (k *baseKey) GetID() []byte                             { return []byte{byte(k.id)} }
 func (k *baseKey) ImportCertificate(*x509.Certificate) error { return nil }
 
 type cstep struct {
@@ -260,11 +261,17 @@ func Classify() {
 		{"p11fatal", pkcs11.Error(pkcs11.CKR_DEVICE_REMOVED), "p11-temporary", true},
 		{"p11user", pkcs11.Error(pkcs11.CKR_PIN_INCORRECT), "p11-permanent", false},
 	}
-	for _, op := range []string{"getkey", "sign"} {
+	// the worker process opens its token with the layers the configuration asks for: bare, or behind the rate limiter
+	for _, opl := range []string{"getkey", "sign", "getkey+ratelimit", "sign+ratelimit"} {
+		op := strings.TrimSuffix(opl, "+ratelimit")
 		for _, c := range cases {
 			base := newBase()
+			var tok token.Token = base
+			if op != opl {
+				tok = tokencache.NewLimiter(base, 1000, 10)
+			}
 			shut := make(chan struct{}, 4)
-			h := workercmd.NewHandlerForVerif(base, cookie, 0, func() { shut <- struct{}{} })
+			h := workercmd.NewHandlerForVerif(tok, cookie, 0, func() { shut <- struct{}{} })
 			srv := httptest.NewServer(h)
 			cl, _ := worker.NewForVerif(cfg, "w", srv.Listener.Addr().String(), cookie)
 			var got error
@@ -292,7 +299,7 @@ func Classify() {
 			switch c.want {
 			case "notimpl", "p11-permanent":
 				if got == nil || isTemp {
-					r.Fail(key, c.name, "%s/%s: error %v temporary=%v; must be a permanent error", op, c.name, got, isTemp)
+					r.Fail(key, c.name, "%s/%s: error %v temporary=%v; must be a permanent error", opl, c.name, got, isTemp)
 				}
 			case "p11-temporary":
 				if got == nil || !isTemp {
@@ -300,7 +307,7 @@ func Classify() {
 				}
 			default:
 				if cls != c.want {
-					r.Fail(key, c.name, "%s/%s: client sees %q (%v), expected %q", op, c.name, cls, got, c.want)
+					r.Fail(key, c.name, "%s/%s: client sees %q (%v), expected %q", opl, c.name, cls, got, c.want)
 				}
 			}
 			time.Sleep(20 * time.Millisecond)
@@ -395,4 +402,3 @@ func Classify() {
 	r.Extra["behaviours_read"] = 1
 	r.Emit()
 }
-
